@@ -45,7 +45,12 @@ def gen_text(rng, cs, maxlen=6):
 
 
 def build_file(content, charset):
-    mf = MidiFile(type=content['type'], ticks_per_beat=content['tpb'], charset=charset)
+    if content.get('late_charset'):
+        # the charset in force is the attribute at the time of the call, not the constructor argument
+        mf = MidiFile(type=content['type'], ticks_per_beat=content['tpb'], charset='cp437')
+        mf.charset = charset
+    else:
+        mf = MidiFile(type=content['type'], ticks_per_beat=content['tpb'], charset=charset)
     for tr in content['tracks']:
         t = MidiTrack()
         for ev in tr:
@@ -103,7 +108,7 @@ class Charset(BaseEngine):
                 else:
                     tr.append(['keysig', pick(rng, ('C', 'F#m', 'Cb')), 0])
             tracks.append(tr)
-        return {'type': 1, 'tpb': pick(rng, (96, 480)), 'tracks': tracks}
+        return {'type': 1, 'tpb': pick(rng, (96, 480)), 'tracks': tracks, 'late_charset': rng.random() < 0.2}
 
     def gen(self, prop, seed, idx, tier):
         rng = rng_for(prop, seed, idx, 'plan')
